@@ -9,6 +9,32 @@ from .prng import RecSHA256, RecRandomState, Draws
 ALTS = ["greater", "less", "two-sided"]
 
 
+def close(x, q, rel=1e-9, ab=0.0):
+    """float x agrees with the exact rational q — *relative* tolerance only (data may be scaled by
+    2^-40), an exact zero must come out as an exact zero unless an absolute slack is asked for"""
+    xf, qf = float(x), float(q)
+    if q == 0:
+        return abs(xf) <= ab
+    return abs(xf - qf) <= ab + rel * abs(qf)
+
+
+SCALES = [1.0] * 8 + [2.0 ** -20, 2.0 ** -40, 2.0 ** 30]
+
+
+def apply_scale(p, rng, keys=("x", "y", "resp")):
+    """multiply the data by a power of two (exact in doubles and in the model): a change that compares
+    statistics with an absolute tolerance, or rounds them, only bites at small or large scales"""
+    sc = 1.0 if p.get("noscale") else rng.choice(SCALES)
+    if sc != 1.0:
+        for k in keys:
+            if p.get(k) is not None:
+                p[k] = [v * sc for v in p[k]]
+        if "shift" in p:
+            p["shift"] = p["shift"] * sc
+    p["scale"] = sc
+    return p
+
+
 # ----------------------------------------------------------------------------- small helpers
 def small_values(rng, n, kind=None):
     """data on grids for which the exact statistics are exactly representable or nearly so"""
@@ -22,6 +48,22 @@ def small_values(rng, n, kind=None):
     if kind == "halves":
         return [rng.randint(-8, 8) / 2 for _ in range(n)]
     return [float(rng.randint(-40, 40)) for _ in range(n)]
+
+
+def pick_reps(rng, small=12):
+    """mostly few repetitions, sometimes many: a change that only bites past a threshold (a 'fast path'
+    for large reps) must not escape"""
+    u = rng.random()
+    if u < 0.85:
+        return rng.randint(1, small)
+    if u < 0.95:
+        return rng.randint(30, 60)
+    return rng.choice([128, 257, 1001])
+
+
+def pick_n(rng, lo, hi, big=25):
+    """mostly small sizes, sometimes larger ones"""
+    return rng.randint(lo, hi) if rng.random() < 0.88 else rng.randint(hi + 1, big)
 
 
 def weights(rng, n):
@@ -59,6 +101,14 @@ class Problem(Exception):
     pass
 
 
+def arr(p, key):
+    """the caller's array for p[key]: float64, or int64 when requested and every value is integral"""
+    v = p[key]
+    if p.get("intdtype") and all(float(t).is_integer() and abs(t) < 2**40 for t in v):
+        return np.array([int(t) for t in v], dtype=np.int64)
+    return np.array(v)
+
+
 def _const(a):
     return len(set(a)) <= 1
 
@@ -84,12 +134,16 @@ class Fn:
         return numerator_of(p, reps + c)
 
 
+PAIRS = {"neg": ((lambda u: -u), (lambda u: -u)), "double": ((lambda u: 2 * u), (lambda u: u / 2)),
+         "square": ((lambda u: u ** 2), (lambda u: np.sqrt(u))), "cube": ((lambda u: u ** 3), (lambda u: np.cbrt(u)))}
+
+
 class TwoSample(Fn):
     name = "two_sample"; site = "two_sample"
     shift = False
 
     def gen(self, rng):
-        nx, ny = rng.randint(1, 6), rng.randint(1, 6)
+        nx, ny = pick_n(rng, 1, 6), pick_n(rng, 1, 6)
         if rng.random() < 0.15:
             nx, ny = rng.choice([(1, 1), (1, 4), (5, 1), (7, 7)])
         kind = rng.choice(["ints", "ties", "binary", "halves"])
@@ -97,11 +151,22 @@ class TwoSample(Fn):
         stat = rng.choice(["mean", "t", "callable", "callable"])
         if stat == "t" and (nx + ny < 3 or len(set(x + y)) < 2):
             stat = "mean"
-        p = {"x": x, "y": y, "reps": rng.randint(1, 12), "alt": rng.choice(ALTS), "plus1": rng.random() < 0.5,
+        p = {"x": x, "y": y, "reps": pick_reps(rng), "alt": rng.choice(ALTS), "plus1": rng.random() < 0.5,
              "keep": rng.random() < 0.5, "stat": stat, "wx": weights(rng, nx), "wy": weights(rng, ny)}
         if self.shift:
             p["shift"] = rng.choice([0, 2, -3, 0.5, -1.5, 7, 1000])
             p["pair"] = rng.random() < 0.3
+            if rng.random() < 0.3:     # invertible pairs that are not translations
+                p["pairkind"] = rng.choice(["neg", "double", "square", "cube"])
+                if p["pairkind"] == "square":   # non-negative data whose square roots are exact
+                    p["x"] = [float(rng.choice([0, 1, 4, 9, 16, 25])) for _ in p["x"]]
+                    p["y"] = [float(rng.choice([0, 1, 2, 3, 4, 5])) for _ in p["y"]]
+                elif p["pairkind"] == "cube":
+                    p["x"] = [float(rng.choice([-8, -1, 0, 1, 8, 27])) for _ in p["x"]]
+                    p["y"] = [float(rng.choice([-2, -1, 0, 1, 2, 3])) for _ in p["y"]]
+                if p["stat"] == "t" and (len(set(p["x"] + p["y"])) < 3):
+                    p["stat"] = "mean"
+                p["noscale"] = True      # squares / cubes / roots are only exact on the unscaled grids
         return p
 
     def statfn(self, p, seen):
@@ -118,11 +183,13 @@ class TwoSample(Fn):
     def call(self, p, prng):
         from permute import core
         seen = []
-        x, y = np.array(p["x"]), np.array(p["y"])
+        x, y = arr(p, "x"), arr(p, "y")
         kw = dict(reps=p["reps"], stat=self.statfn(p, seen), alternative=p["alt"], keep_dist=p["keep"], seed=prng, plus1=p["plus1"])
         if self.shift:
             d = p["shift"]
             sh = ((lambda u: u + d), (lambda u: u - d)) if p["pair"] else d
+            if p.get("pairkind"):
+                sh = PAIRS[p["pairkind"]]
             r = guarded(core.two_sample_shift, x, y, shift=sh, **kw)
         else:
             r = guarded(core.two_sample, x, y, **kw)
@@ -141,9 +208,21 @@ class TwoSample(Fn):
 
     def op(self, p, draws):
         head = f"{p['alt']}|{int(p['plus1'])}|{rats(p['x'])}|{rats(p['y'])}"
+        if self.shift and p.get("pairkind"):
+            c0, c1 = self.table(p)
+            return f"twosamplecore|{p['alt']}|{int(p['plus1'])}|{len(p['x'])}|{rats(c0)}|{rats(c1)}|{self.statspec(p)}|{rows(draws, ints)}"
         if self.shift:
             return f"twosampleshift|{head}|{rat(p['shift'])}|{self.statspec(p)}|{rows(draws, ints)}"
         return f"twosample|{head}|{self.statspec(p)}|{rows(draws, ints)}"
+
+    def table(self, p):
+        """potential-outcome columns (treatment, control) as the doubles NumPy computes"""
+        x, y = np.array(p["x"]), np.array(p["y"])
+        if p.get("pairkind"):
+            f, finv = PAIRS[p["pairkind"]]
+            return list(np.concatenate([x, f(y)])), list(np.concatenate([finv(x), y]))
+        d = p.get("shift", 0) if self.shift else 0
+        return list(np.concatenate([x, y + d])), list(np.concatenate([x - d, y]))
 
     def unpack(self, p, ret):
         if p["keep"]:
@@ -183,11 +262,16 @@ class TwoSample(Fn):
             if res["dist"] is not None and not (len(res["dist"]) == reps and all(close(a, b) for a, b in zip(res["dist"], mdist))):
                 probs.append("returned dist differs from the model's")
             mp = frac(f["p"])
-            if not close(res["p"], mp, rel=1e-12):
+            if p["stat"] == "mean":
+                # differences of two rounded means: arrangements whose exact statistics tie may be ordered either
+                # way by doubles (only for identical arrays is the double identical) -> bracket
+                probs += bracket_check(res["p"], p["alt"], c, reps, mdist, mobs, margs,
+                                       (exact_list(p["x"]), exact_list(p["y"])) if not self.shift else None)
+            elif not close(res["p"], mp, rel=1e-12):
                 probs.append(f"p-value {float(res['p'])} != model {mp} (hitsUp={f['up']}, hitsDn={f['dn']})")
         else:   # t: keys are sign(t)·t²; compare values numerically, counts through the tie bracket
-            tab0 = [F(v) for v in p["x"]] + [F(v) + (F(p["shift"]) if self.shift else 0) for v in p["y"]]
-            tab1 = [F(v) - (F(p["shift"]) if self.shift else 0) for v in p["x"]] + [F(v) for v in p["y"]]
+            c0_, c1_ = self.table(p)
+            tab0 = [F(v) for v in c0_]; tab1 = [F(v) for v in c1_]
             if t_degenerate(margs + [(tab0[:len(p["x"])], tab1[len(p["x"]):])]):
                 return ["SKIP-nonfinite"]
             key = lambda t: (1 if t >= 0 else -1) * float(t) ** 2
@@ -195,17 +279,17 @@ class TwoSample(Fn):
                 probs.append(f"observed t statistic {float(res['obs'])}: sign·t² = {key(res['obs'])} != {float(mobs)}")
             if res["dist"] is not None and not all(close(key(a), b, rel=1e-7, ab=1e-9) for a, b in zip(res["dist"], mdist)):
                 probs.append("returned dist (t statistics) differs from the model's")
-            probs += bracket_check(res["p"], p["alt"], c, reps, mdist, mobs, margs, (exact_list(p["x"]), exact_list(p["y"])) if not self.shift else None)
+            probs += bracket_check(res["p"], p["alt"], c, reps, mdist, mobs, margs, (exact_list(p["x"]), exact_list(p["y"])) if not self.shift else None, floor=Fr(1, 10**9))
         return probs
 
 
-def bracket_check(pval, alt, c, reps, mdist, mobs, margs=None, obs_args=None, tol=Fr(1, 10**9)):
+def bracket_check(pval, alt, c, reps, mdist, mobs, margs=None, obs_args=None, tol=Fr(1, 10**9), floor=Fr(0)):
     """F2: the implementation's p-value must be consistent with the exact three-way classification of
     every simulated value against the observed one, ties (exact or within 1e-9) going either way unless
     the rearranged arrays are identical to the observed ones"""
     gt = lt = eq = eqid = 0
     for i, v in enumerate(mdist):
-        if abs(v - mobs) <= tol * max(1, abs(mobs)):
+        if abs(v - mobs) <= tol * max(abs(v), abs(mobs)) + floor:
             eq += 1
             if margs is not None and obs_args is not None and margs[i] == obs_args:
                 eqid += 1
@@ -237,7 +321,7 @@ class OneSample(Fn):
     name = "one_sample"; site = "one_sample"
 
     def gen(self, rng):
-        n = rng.randint(1, 7)
+        n = pick_n(rng, 1, 7)
         kind = rng.choice(["ints", "ties", "halves"])
         x = small_values(rng, n, kind)
         paired = rng.random() < 0.4
@@ -246,7 +330,7 @@ class OneSample(Fn):
         z = [a - b for a, b in zip(x, y)] if paired else x
         if stat == "t" and (n < 2 or len(set(abs(v) for v in z)) < 2 or all(v == 0 for v in z)):
             stat = "mean"
-        return {"x": x, "y": y, "reps": rng.randint(1, 12), "alt": rng.choice(ALTS), "plus1": rng.random() < 0.5,
+        return {"x": x, "y": y, "reps": pick_reps(rng), "alt": rng.choice(ALTS), "plus1": rng.random() < 0.5,
                 "keep": rng.random() < 0.5, "stat": stat, "w": weights(rng, n)}
 
     def call(self, p, prng):
@@ -259,7 +343,7 @@ class OneSample(Fn):
             val = float(np.dot(w, u))
             return {"np": np.float64(val), "float": val, "int": int(val) if val.is_integer() else val}[kind]
         st = f if p["stat"] == "callable" else p["stat"]
-        r = guarded(core.one_sample, np.array(p["x"]), None if p["y"] is None else np.array(p["y"]), reps=p["reps"], stat=st,
+        r = guarded(core.one_sample, arr(p, "x"), None if p["y"] is None else arr(p, "y"), reps=p["reps"], stat=st,
                     alternative=p["alt"], keep_dist=p["keep"], seed=prng, plus1=p["plus1"])
         return r, seen
 
@@ -309,7 +393,7 @@ class OneSample(Fn):
             key = lambda t: (1 if t >= 0 else -1) * float(t) ** 2
             if not close(key(res["obs"]), mobs, rel=1e-7, ab=1e-9):
                 probs.append(f"observed t statistic: sign·t² = {key(res['obs'])} != {float(mobs)}")
-            probs += bracket_check(res["p"], p["alt"], c, reps, mdist, mobs, [tuple(a) for a in margs], tuple(exact_list(self.z(p))))
+            probs += bracket_check(res["p"], p["alt"], c, reps, mdist, mobs, [tuple(a) for a in margs], tuple(exact_list(self.z(p))), floor=Fr(1, 10**9))
         return probs
 
 
@@ -327,12 +411,12 @@ class Corr(Fn):
                 x, y = small_values(rng, n, "ints"), small_values(rng, n, rng.choice(["ints", "halves"]))
                 if len(set(x)) > 1 and len(set(y)) > 1:
                     break
-        return {"x": x, "y": y, "reps": rng.randint(1, 12), "alt": rng.choice(ALTS), "plus1": rng.random() < 0.5}
+        return {"x": x, "y": y, "reps": pick_reps(rng), "alt": rng.choice(ALTS), "plus1": rng.random() < 0.5}
 
     def call(self, p, prng):
         from permute import core
         fn = core.spearman_corr if self.spearman else core.corr
-        r = guarded(fn, np.array(p["x"]), np.array(p["y"]), alternative=p["alt"], reps=p["reps"], seed=prng, plus1=p["plus1"])
+        r = guarded(fn, arr(p, "x"), arr(p, "y"), alternative=p["alt"], reps=p["reps"], seed=prng, plus1=p["plus1"])
         return r, []
 
     def draws(self, p, log):
@@ -361,7 +445,7 @@ class Corr(Fn):
         if len(res["dist"]) != reps or not all(close(key(a), b, rel=1e-7, ab=1e-9) for a, b in zip(res["dist"], mdist)):
             probs.append("returned simulated correlations differ from the model's")
         obs_x = tuple(exact_list(p["x"])) if not self.spearman else None
-        probs += bracket_check(res["p"], p["alt"], c, reps, mdist, mobs, margs if obs_x else None, obs_x)
+        probs += bracket_check(res["p"], p["alt"], c, reps, mdist, mobs, margs if obs_x else None, obs_x, floor=Fr(1, 10**9))
         return probs
 
 
@@ -374,13 +458,13 @@ class KSample(Fn):
     name = "k_sample"; site = "k_sample"
 
     def gen(self, rng):
-        n = rng.randint(2, 8)
+        n = pick_n(rng, 2, 8, 20)
         k = rng.randint(2, min(4, n))
         group = [i % k for i in range(n)]; rng.shuffle(group)
         labels = rng.choice([[0, 1, 2, 3], [5, 2, 9, 7], [1, 2, 3, 4]])
         group = [labels[g] for g in group]
         x = small_values(rng, n)
-        return {"x": x, "group": group, "reps": rng.randint(1, 12), "plus1": rng.random() < 0.5, "keep": rng.random() < 0.5,
+        return {"x": x, "group": group, "reps": pick_reps(rng), "plus1": rng.random() < 0.5, "keep": rng.random() < 0.5,
                 "stat": rng.choice(["anova", "callable", "callable"])}
 
     def call(self, p, prng):
@@ -392,7 +476,7 @@ class KSample(Fn):
             val = float(np.dot(x, g))
             return {"np": np.float64(val), "float": val, "int": int(val) if val.is_integer() else val}[kind]
         st = f if p["stat"] == "callable" else "one-way anova"
-        r = guarded(ksample.k_sample, np.array(p["x"]), np.array(p["group"]), reps=p["reps"], stat=st, keep_dist=p["keep"],
+        r = guarded(ksample.k_sample, arr(p, "x"), np.array(p["group"]), reps=p["reps"], stat=st, keep_dist=p["keep"],
                     seed=prng, plus1=p["plus1"])
         return r, seen
 
@@ -449,7 +533,7 @@ class Bivariate(Fn):
         x = small_values(rng, n, rng.choice(["ints", "wide", "halves"]))
         if len(set(x)) < 2:
             x[0] += 1
-        return {"x": x, "g1": g1, "g2": g2, "reps": rng.randint(1, 10), "plus1": rng.random() < 0.5, "keep": rng.random() < 0.5,
+        return {"x": x, "g1": g1, "g2": g2, "reps": pick_reps(rng, 10), "plus1": rng.random() < 0.5, "keep": rng.random() < 0.5,
                 "stat": rng.choice(["twoway", "callable", "callable"])}
 
     def call(self, p, prng):
@@ -547,7 +631,7 @@ class StratPerm(Fn):
             ok = len(set(group)) >= 2 and all(set(c for g2, c in zip(group, cond) if g2 == g) == {0, 1} for g in set(group))
             if not ok:
                 stat = "callable"
-        return {"group": group, "cond": cond, "resp": small_values(rng, n), "reps": rng.randint(1, 10), "alt": rng.choice(ALTS),
+        return {"group": group, "cond": cond, "resp": small_values(rng, n), "reps": pick_reps(rng, 10), "alt": rng.choice(ALTS),
                 "plus1": rng.random() < 0.5, "stat": stat, "w": weights(rng, n)}
 
     def call(self, p, prng):
@@ -558,7 +642,7 @@ class StratPerm(Fn):
             seen.append(np.array(u).copy())
             return np.float64(np.dot(w, u))
         st = f if p["stat"] == "callable" else "mean"
-        r = guarded(stratified.stratified_permutationtest, np.array(p["group"]), np.array(p["cond"]), np.array(p["resp"]),
+        r = guarded(stratified.stratified_permutationtest, np.array(p["group"]), np.array(p["cond"]), arr(p, "resp"),
                     alternative=p["alt"], reps=p["reps"], testStatistic=st, seed=prng, plus1=p["plus1"])
         return r, seen
 
@@ -614,7 +698,7 @@ class SimCorr(Fn):
             x = [float(v) for v in rng.sample(range(-9, 30), n)]
             y = [float(v) for v in rng.sample(range(-9, 30), n)]
             break
-        return {"x": x, "y": y, "group": group, "reps": rng.randint(1, 10), "alt": rng.choice(ALTS), "plus1": rng.random() < 0.5}
+        return {"x": x, "y": y, "group": group, "reps": pick_reps(rng, 10), "alt": rng.choice(ALTS), "plus1": rng.random() < 0.5}
 
     def call(self, p, prng):
         from permute import stratified
@@ -665,7 +749,7 @@ class StratTwoSample(Fn):
             ok = len(set(group)) >= 2 and all(set(c for g2, c in zip(group, cond) if g2 == g) == {0, 1} for g in set(group))
             if not ok:
                 stat = "callable"
-        return {"group": group, "cond": cond, "resp": resp, "reps": rng.randint(1, 10), "alt": rng.choice(ALTS),
+        return {"group": group, "cond": cond, "resp": resp, "reps": pick_reps(rng, 10), "alt": rng.choice(ALTS),
                 "plus1": rng.random() < 0.5, "keep": rng.random() < 0.5, "stat": stat, "w": weights(rng, n)}
 
     def ordering(self, p):
@@ -681,7 +765,7 @@ class StratTwoSample(Fn):
             val = float(np.dot(w, u))
             return {"np": np.float64(val), "float": val, "int": int(val) if val.is_integer() else val}[kind]
         st = f if p["stat"] == "callable" else p["stat"]
-        r = guarded(stratified.stratified_two_sample, np.array(p["group"]), np.array(p["cond"]), np.array(p["resp"]), stat=st,
+        r = guarded(stratified.stratified_two_sample, np.array(p["group"]), np.array(p["cond"]), arr(p, "resp"), stat=st,
                     alternative=p["alt"], reps=p["reps"], keep_dist=p["keep"], seed=prng, plus1=p["plus1"])
         return r, seen
 
@@ -753,7 +837,8 @@ class StratTwoSample(Fn):
             if not close(res["p"], frac(f["p"]), rel=1e-12):
                 probs.append(f"p-value {float(res['p'])} != model {frac(f['p'])}")
         else:
-            probs += bracket_check(res["p"], p["alt"], c, reps, mdist, mobs, [tuple(a) for a in margs], obs_args)
+            probs += bracket_check(res["p"], p["alt"], c, reps, mdist, mobs, [tuple(a) for a in margs], obs_args,
+                                   floor=(Fr(1, 10**9) if p["stat"] == "t" else Fr(0)))
         return probs
 
 
@@ -770,7 +855,10 @@ def run_recorded(ctx, names, per_fn, site_prefix=""):
         fn = FUNCS[name]
         for _ in range(per_fn):
             p = fn.gen(ctx.rng)
+            if name not in ("spearman_corr",):
+                apply_scale(p, ctx.rng)
             p["ret"] = ctx.rng.choice(["np", "np", "float", "int"])
+            p["intdtype"] = ctx.rng.random() < 0.25 and not (name == "two_sample_shift" and not float(p.get("shift", 0)).is_integer())
             g, gkind, gseed = mk_generator(ctx.rng)
             r, seen = fn.call(p, g)
             det = {"call": name, "params": p, "generator": gkind, "seed": gseed}
